@@ -160,7 +160,7 @@ func isInt(k reflect.Kind) bool {
 
 func isUint(k reflect.Kind) bool {
 	switch k {
-	case reflect.Uint, reflect.Uint8, reflect.Uint16, reflect.Uint32, reflect.Uint64:
+	case reflect.Uint, reflect.Uint8, reflect.Uint16, reflect.Uint32, reflect.Uint64, reflect.Uintptr:
 		return true
 	default:
 		return false
